@@ -114,7 +114,10 @@ impl<'a> World<'a> {
                     return Outcome::Panic(format!("add_content({}): {m}", id.display()));
                 }
             }
-            exec::observe(&p)
+            let o = exec::observe(&p);
+            // the reference thread, too, is a client that works with what it gets
+            exec::use_public_api(&o);
+            o
         })
     }
 
@@ -330,6 +333,25 @@ fn run_inner(w: &mut World, s: &HistScenario) -> RunOut {
             P::new()
         }
     });
+    // the shadow parser: created on another caller than the parser under test
+    let mut shadow: Option<P> = if s.shadow_parser && prop == Prop::C12 {
+        let c = s.steps.first().map(|st| st.caller + 1).unwrap_or(1);
+        w.count("shadow_parser_runs");
+        Some(callers.exec(c, move || {
+            policy.install(u64::MAX / 2);
+            P::new()
+        }))
+    } else {
+        None
+    };
+    let alt_text = |i: u64| -> String {
+        match i % 4 {
+            0 => format!("package alt; parcelable A{} {{ int f; }}", i % 3),
+            1 => format!("package alt; import alt.A0; interface I{} {{ void f(in A0 a); }}", i % 3),
+            2 => format!("package alt; enum A{} {{ X, }}", i % 3),
+            _ => "package alt; interface {".to_owned(),
+        }
+    };
     let mut prev_c13: Option<C13State> = None;
     // bookkeeping for probes / non-triviality
     let mut ever_removed: BTreeSet<PathBuf> = BTreeSet::new();
@@ -414,6 +436,7 @@ fn run_inner(w: &mut World, s: &HistScenario) -> RunOut {
                 stale.remove(&id);
                 // Note: BTreeMap::insert keeps the old key on replacement, like the library's HashMap
                 let spelling = id.as_os_str().to_owned();
+                let mirror_id = id.clone();
                 model.insert(
                     id,
                     Entry {
@@ -423,6 +446,15 @@ fn run_inner(w: &mut World, s: &HistScenario) -> RunOut {
                     },
                 );
                 mutations_since_obs += 1;
+                if let Some(sh) = shadow.take() {
+                    let t = alt_text(step_no);
+                    shadow = Some(callers.exec(st.caller, move || {
+                        policy.install(step_no + 500_000);
+                        let mut sh = sh;
+                        let _ = exec::add_content(&mut sh, mirror_id, &t);
+                        sh
+                    }));
+                }
             }
             Op::Remove { path } => {
                 let id = PathBuf::from(w.real_path(path));
@@ -446,6 +478,15 @@ fn run_inner(w: &mut World, s: &HistScenario) -> RunOut {
                         });
                         break;
                     }
+                }
+                if let Some(sh) = shadow.take() {
+                    let mirror_id = id.clone();
+                    shadow = Some(callers.exec(st.caller, move || {
+                        policy.install(step_no + 500_000);
+                        let mut sh = sh;
+                        sh.remove_content(mirror_id);
+                        sh
+                    }));
                 }
                 loaded_from.remove(&id);
                 stale.remove(&id);
@@ -479,6 +520,16 @@ fn run_inner(w: &mut World, s: &HistScenario) -> RunOut {
                 });
                 parser = p;
                 mutations_since_obs += 1;
+                if let Some(sh) = shadow.take() {
+                    shadow = Some(callers.exec(st.caller, move || {
+                        let mut sh = sh;
+                        let id = PathBuf::from("never/added/by/anyone.aidl");
+                        for _ in 0..n {
+                            sh.remove_content(id.clone());
+                        }
+                        sh
+                    }));
+                }
                 if n >= 65000 {
                     w.count("probe_65536_mutations_between_validations");
                 }
@@ -833,6 +884,14 @@ fn run_inner(w: &mut World, s: &HistScenario) -> RunOut {
         }
 
         if prop == Prop::C12 {
+            if let Some(sh) = shadow.take() {
+                // the other parser is validated on the observing thread first
+                shadow = Some(callers.exec(st.obs_caller, move || {
+                    policy.install(step_no * 1000 + 400);
+                    let _ = exec::observe(&sh);
+                    sh
+                }));
+            }
             let parser_ref = parser;
             let concurrent = st.concurrent;
             if concurrent > 1 {
@@ -848,7 +907,10 @@ fn run_inner(w: &mut World, s: &HistScenario) -> RunOut {
                 }
                 for r in 0..observe_times {
                     policy.install(step_no * 1000 + 500 + r as u64);
-                    v.push(exec::observe(&parser_ref));
+                    let o = exec::observe(&parser_ref);
+                    // a client works with the result on this thread before anything else happens
+                    exec::use_public_api(&o);
+                    v.push(o);
                 }
                 (parser_ref, v)
             });
@@ -882,6 +944,7 @@ fn run_inner(w: &mut World, s: &HistScenario) -> RunOut {
         }
     }
     drop(parser);
+    drop(shadow);
     let mut counters = std::mem::take(&mut w.counters);
     counters.insert("max_live_files".to_owned(), max_live as u64);
     RunOut {
@@ -977,21 +1040,14 @@ fn check_c12(
                 });
             }
         }
-        // the id a result is tagged with is the one given by the call that stored its content
+        // The id a result is tagged with: equal (==) to the model's by the id_tag clause above.
+        // Whether it is also the very id object given by the latest add (an equal PathBuf can be
+        // spelled differently) is counted, not judged: implementations legitimately differ.
         for (k, e) in model {
             if let Some(r) = m.get(k) {
                 if r.id.as_os_str() != e.spelling.as_os_str() {
-                    return Some(Violation {
-                        property: "C12",
-                        clause: "id_latest".to_owned(),
-                        signature: "id_latest".to_owned(),
-                        detail: format!(
-                            "after step {si}: the result for {:?} is tagged with the id {:?}, an equal path but not the one given by the call that stored its latest content ({:?}): a fresh parser holding the surviving (id, content) pair returns the latter",
-                            k, r.id, e.spelling
-                        ),
-                        left: format!("{:?}", r.id),
-                        right: format!("{:?}", e.spelling),
-                    });
+                    w.count("note_id_spelling_is_not_the_latest_add");
+                    break;
                 }
             }
         }
@@ -1277,12 +1333,18 @@ fn check_c13(
         if !others[k].is_empty() {
             w.count("c13_stub_checks_with_registered_imports");
         }
-        if got.ast != expected.0 || got.diagnostics != expected.1 {
-            let what = if got.ast != expected.0 { "tree" } else { "diagnostics" };
-            let exp = FileResult {
-                id: k.clone(),
-                ast: expected.0.clone(),
-                diagnostics: expected.1.clone(),
+        let exp = FileResult {
+            id: k.clone(),
+            ast: expected.0.clone(),
+            diagnostics: expected.1.clone(),
+        };
+        if got.ast != expected.0 || got.diagnostics != expected.1 || !canon::fields_eq(got, &exp) {
+            let what = if got.ast != expected.0 {
+                "tree"
+            } else if got.diagnostics != expected.1 {
+                "diagnostics"
+            } else {
+                "fields that the library's own == does not compare"
             };
             return (
                 Some(Violation {
